@@ -201,8 +201,12 @@ func (cache *dirCache) Retrieve(target *core.BuildTarget, key []byte, outs []str
 // retrieveFiles retrieves the given set of files from the cache.
 func (cache *dirCache) retrieve(target *core.BuildTarget, key []byte, suffix string, outs []string) bool {
 	found, err := cache.retrieveFiles(target, cache.getPath(target, key, suffix), outs)
-	if err != nil && !os.IsNotExist(err) {
-		log.Warning("Failed to retrieve %s from dir cache: %s", target.Label, err)
+	if err != nil {
+		// Whatever went wrong, we do not have the complete set of artifacts. That includes the entry
+		// disappearing while we read it (another process cleaning or re-storing it), which isn't worth a warning.
+		if !os.IsNotExist(err) {
+			log.Warning("Failed to retrieve %s from dir cache: %s", target.Label, err)
+		}
 		return false
 	} else if found {
 		log.Debug("Retrieved %s: %s from dir cache", target.Label, suffix)
